@@ -251,7 +251,7 @@ def make_replay(ref, v):
             for idx in np.ndindex(*arr.shape[:-1]):
                 for c in range(ref.nf):
                     name = list(core.consts_of(arr[idx + (c,)].t))[0]
-                    if v.get('model') is None or not any(d.name() == name for d in v['model'].decls()):
+                    if v.get('model') is None or name not in val.decls:
                         jitter = (int(hashlib.sha1(name.encode()).hexdigest()[:4], 16) % 1000) / 1e4
                         val.defaults[name] = base[c] * (1 + jitter)
     d = common.replay_dir('C11', v['signature'])
